@@ -1,7 +1,7 @@
 """C03 - flush / sync_data / sync_all make all preceding updates durable."""
 from .model import Tracer, short, const_val, Effects
 from .roles import Roles, io_effects, WRITE_ATOMS, INNER, FILEDBINNER, role_effects
-from .util import (calls_to, origins, where, region_dominated, result_fate, callee_name, reachable_fns)
+from .util import (calls_to, origins, where, region_dominated, result_fate, callee_name, reachable_fns, bool_switches, leaf_origins)
 from . import flushpath as fp
 
 EXPLANATION = (
@@ -194,85 +194,151 @@ def _db_level(ctx, prog):
             if f["ty"].startswith("alloc::collections::btree::map::BTreeMap<") and "FileDbMap<" in f["ty"]:
                 regs.append(f["name"])
     ctx.floor("db-sync-registries", "registries of open maps in FileDbInner", len(regs), 5)
+    CB = ("core::ops::function::Fn::call", "core::ops::function::FnMut::call_mut", "core::ops::function::FnOnce::call_once")
     ap = prog.find(name="applay_all", self_adt=FILEDBINNER)
     if len(ap) != 1:
         # renamed: the one FileDbInner method that invokes a callback parameter
         ap = [f for f in prog.fns.values() if f.crate == "abyssiniandb" and f.kind in ("AssocFn", "Fn") and
-              (f.impl_self_adt == FILEDBINNER or f.module == FILEDBINNER.rsplit("::", 1)[0]) and any(
-            (t.get("callee") or "") in ("core::ops::function::Fn::call", "core::ops::function::FnMut::call_mut", "core::ops::function::FnOnce::call_once") for b, t in f.calls())]
-    if not ctx.check(len(ap) == 1, "db-sync-registries", "anchor", "FileDbInner::applay_all not found"):
-        return
-    ap = ap[0]
-    ctx.touch(ap, len(ap.blocks))
-    # callback invocations
-    cb_sites = [(b, t) for b, t in ap.calls() if (t.get("callee") or "") in (
-        "core::ops::function::Fn::call", "core::ops::function::FnMut::call_mut", "core::ops::function::FnOnce::call_once")]
-    covered = {}
-    site_flds = {}
-    for b, t in cb_sites:
-        # the handle passed: tuple arg (&mut b,) ; b originates from getter(...).unwrap()
-        os_ = origins(prog, ap, t["args"][1], at=b)
-        flds = set()
-        for o in os_:
-            stack = [o]
-            seen = 0
-            while stack and seen < 50:
-                seen += 1
-                x = stack.pop()
-                if x.kind == "agg":
-                    for op in x.data["ops"]:
-                        stack.extend(origins(prog, ap, op))
-                elif x.kind == "call":
-                    tg, _ = prog.targets(x.data, ap)
-                    if tg and tg[0].impl_self_adt == FILEDBINNER:
-                        flds |= _fields_read(tg[0])
-                    elif x.data.get("args"):
-                        stack.extend(origins(prog, ap, x.data["args"][0], at=x.block))
-                elif x.kind == "param" and x.proj:
-                    # the registry itself (`self.db_x_map.values()` instead of a key snapshot and the getter)
-                    for p_ in x.proj:
-                        if p_.startswith("f:") and p_.rsplit(".", 1)[0].endswith("FileDbInner"):
-                            flds.add(p_.rsplit(".", 1)[1])
-        fate = result_fate(prog, ap, t["dest"]["l"]) if t["dest"]["l"] != 0 else {"returned"}
-        site_flds[b] = flds
-        for f in flds:
-            covered.setdefault(f, []).append((b, fate))
-    for r in regs:
-        ctx.check(r in covered, "db-sync-registries", r,
-                  "FileDb::sync_all/sync_data never reach the maps registered in `%s`" % r, where=where(ap))
-        for b, fate in covered.get(r, []):
-            ctx.check(fate <= {"try", "returned", "match-returned"}, "db-sync-result", r,
-                      "the result of syncing a map of registry `%s` is %s, not propagated" % (r, sorted(fate)), where=where(ap, b))
-    # every registered map is visited on every successful call: a loop round always invokes the callback, and the loop
-    # body has no successful exit of its own (only the iterator's `None` leaves a loop)
-    _visits_every_map(ctx, prog, ap, cb_sites, site_flds)
-    # the two database-level methods pass a closure calling the same-named trait method
+              (f.impl_self_adt == FILEDBINNER or f.module == FILEDBINNER.rsplit("::", 1)[0]) and any((t.get("callee") or "") in CB for b, t in f.calls())]
+    methods = {}
     for m in ("sync_all", "sync_data"):
         fs = prog.find(name=m, self_adt=FILEDBINNER)
-        if not ctx.check(len(fs) == 1, "db-sync-method", m + ":anchor", "FileDbInner::%s not found" % m):
-            continue
-        f = fs[0]
+        if ctx.check(len(fs) == 1, "db-sync-method", m + ":anchor", "FileDbInner::%s not found" % m):
+            methods[m] = fs[0]
+    # walkers: the shared walker with its callback sites, or - when the walk was written out / inlined into the two
+    # methods - each method with its direct calls of the same-named per-map method
+    walkers = []
+    if len(ap) == 1:
+        walkers.append((ap[0], [(b, t) for b, t in ap[0].calls() if (t.get("callee") or "") in CB], 1, None))
+    else:
+        for m, f in methods.items():
+            sites = [(b, t) for b, t in f.calls() if (t.get("callee") or "") == "abyssiniandb::DbXxxBase::" + m and not f.is_cleanup(b)]
+            others = sorted({callee_name(t) for b, t in f.calls() if (t.get("callee") or "").startswith("abyssiniandb::DbXxxBase::") and not f.is_cleanup(b)} - {m, "is_dirty"})
+            if sites:
+                walkers.append((f, sites, 0, m))
+                ctx.check(not others, "db-sync-method", m, "FileDbInner::%s also applies %s to the maps" % (m, others), where=where(f))
+    if not ctx.check(bool(walkers) and (len(ap) == 1 or len(walkers) == len(methods) == 2), "db-sync-registries", "anchor",
+                     "cannot find the walk over the registered maps (neither a shared walker invoking a callback nor the two methods calling the per-map sync directly)"):
+        return
+    for w, cb_sites, argi, wm in walkers:
+        ctx.touch(w, len(w.blocks))
+        tag = "" if wm is None else wm + ":"
+        covered = {}
+        site_flds = {}
+        for b, t in cb_sites:
+            # the handle passed: tuple arg (&mut b,) ; b originates from getter(...).unwrap()
+            os_ = origins(prog, w, t["args"][argi], at=b)
+            flds = set()
+            for o in os_:
+                stack = [o]
+                seen = 0
+                while stack and seen < 50:
+                    seen += 1
+                    x = stack.pop()
+                    if x.kind == "agg":
+                        for op in x.data["ops"]:
+                            stack.extend(origins(prog, w, op))
+                    elif x.kind == "call":
+                        tg, _ = prog.targets(x.data, w)
+                        if tg and tg[0].impl_self_adt == FILEDBINNER:
+                            flds |= _fields_read(tg[0])
+                        elif x.data.get("args"):
+                            stack.extend(origins(prog, w, x.data["args"][0], at=x.block))
+                    elif x.kind == "param" and x.proj:
+                        # the registry itself (`self.db_x_map.values()` instead of a key snapshot and the getter)
+                        for p_ in x.proj:
+                            if p_.startswith("f:") and p_.rsplit(".", 1)[0].endswith("FileDbInner"):
+                                flds.add(p_.rsplit(".", 1)[1])
+            fate = result_fate(prog, w, t["dest"]["l"]) if t["dest"]["l"] != 0 else {"returned"}
+            site_flds[b] = flds
+            for f in flds:
+                covered.setdefault(f, []).append((b, fate))
+        for r in regs:
+            ctx.check(r in covered, "db-sync-registries", tag + r,
+                      "FileDb::sync_all/sync_data never reach the maps registered in `%s`" % r, where=where(w))
+            for b, fate in covered.get(r, []):
+                ctx.check(fate <= {"try", "returned", "match-returned"}, "db-sync-result", tag + r,
+                          "the result of syncing a map of registry `%s` is %s, not propagated" % (r, sorted(fate)), where=where(w, b))
+        # every registered map is visited on every successful call: a loop round always invokes the callback, and the loop
+        # body has no successful exit of its own (only the iterator's `None` leaves a loop)
+        _visits_every_map(ctx, prog, w, cb_sites, site_flds, tag)
+    # the two database-level methods pass a closure calling the same-named trait method
+    for m, f in methods.items():
         ctx.touch(f)
-        calls_ap = calls_to(prog, f, target_fn=ap)
-        cl = prog.closures_of(f)
-        names = set()
-        for c in cl:
-            for b, t in c.calls():
-                if t.get("callee", "").startswith("abyssiniandb::DbXxxBase::"):
-                    names.add(callee_name(t))
-        ctx.check(bool(calls_ap) and names == {m}, "db-sync-method", m,
-                  "FileDbInner::%s applies %s to every map instead of exactly {%s}" % (m, sorted(names), m), where=where(f))
-        # ... on every successful path: sync_* also asks the OS to sync files that are not dirty, so there is no
-        # "nothing to do" exit
-        ctx.check(bool(calls_ap) and not f.success_reach_return(0, [b for b, _ in calls_ap]), "db-sync-method", m + ":always",
-                  "FileDbInner::%s can return Ok without walking the maps" % m, where=where(f))
+        if len(ap) == 1:
+            calls_ap = calls_to(prog, f, target_fn=ap[0])
+            cl = prog.closures_of(f)
+            names = set()
+            for c in cl:
+                for b, t in c.calls():
+                    if t.get("callee", "").startswith("abyssiniandb::DbXxxBase::"):
+                        names.add(callee_name(t))
+            ctx.check(bool(calls_ap) and names == {m}, "db-sync-method", m,
+                      "FileDbInner::%s applies %s to every map instead of exactly {%s}" % (m, sorted(names), m), where=where(f))
+            walk_blocks = [b for b, _ in calls_ap]
+        else:
+            # the walk is in the method itself: "walking the maps" = reaching the first registry loop
+            walk_blocks = [b for w, cb_sites, argi, wm in walkers if wm == m for b, t in w.calls()
+                           if (t.get("callee") or "").endswith(("IntoIterator::into_iter", "::keys", "::values", "::iter")) and not w.is_cleanup(b)][:1]
+        # ... on every successful path, except for a "no map is dirty" exit: the per-map sync does nothing for a clean map
+        # (checked below), so such an exit changes nothing - provided the dirtiness scan looks at EVERY registry
+        if walk_blocks and f.success_reach_return(0, walk_blocks):
+            scanned = _dirty_scanned_registries(prog, f, regs)
+            missing = sorted(set(regs) - scanned)
+            ctx.check(_clean_sync_is_noop(prog) and not missing, "db-sync-method", m + ":always",
+                      "FileDbInner::%s can return Ok without walking the maps, and the exit is not guarded by a dirtiness scan of every registry (not scanned: %s)"
+                      % (m, ", ".join(missing) or "-"), where=where(f))
+        else:
+            ctx.check(bool(walk_blocks), "db-sync-method", m + ":always", "FileDbInner::%s does not walk the maps" % m, where=where(f))
         tops = prog.find(name=m, self_adt="abyssiniandb::filedb::FileDb")
         ok = len(tops) == 1 and bool(calls_to(prog, tops[0], target_fn=f)) and \
             not tops[0].success_reach_return(0, [b for b, _ in calls_to(prog, tops[0], target_fn=f)])
         ctx.check(ok, "db-sync-method", m + ":FileDb", "FileDb::%s does not always call FileDbInner::%s" % (m, m))
 
 
-def _visits_every_map(ctx, prog, ap, cb_sites, site_flds):
+def _clean_sync_is_noop(prog):
+    """The inner map's sync_all / sync_data touch the files only under `if self.is_dirty()`."""
+    cache = prog.__dict__.setdefault("_clean_sync_noop", {})
+    if "v" in cache:
+        return cache["v"]
+    ok = True
+    n = 0
+    for m in ("sync_all", "sync_data"):
+        for f in prog.find(name=m, self_adt=INNER):
+            if not (f.impl_trait or "").endswith("DbXxxBase"):
+                continue
+            n += 1
+            dirty_true = [s_["true"] for s_ in bool_switches(prog, f)
+                          if s_["cond"] and all(o.kind == "call" and (o.data.get("callee") or "").endswith("::is_dirty") for o in s_["cond"])]
+            for b, t in f.calls():
+                if f.is_cleanup(b) or not (t.get("callee") or "").startswith("abyssiniandb::") or (t.get("callee") or "").endswith("::is_dirty"):
+                    continue
+                if not any(f.dominates(d, b) for d in dirty_true):
+                    ok = False
+    cache["v"] = ok and n == 2
+    return cache["v"]
+
+
+def _dirty_scanned_registries(prog, f, regs):
+    """Registries whose handles are asked `is_dirty()` in f: `self.<reg>.values().any(|m| m.is_dirty())` or a loop."""
+    out = set()
+    bodies = [f] + list(prog.closures_of(f))
+    asks = any((t.get("callee") or "").endswith("::is_dirty") for g in bodies for b, t in g.calls())
+    if not asks:
+        return out
+    for b, t in f.calls():
+        c = t.get("callee") or ""
+        if f.is_cleanup(b) or "btree::map::BTreeMap" not in c or c.rsplit("::", 1)[-1] not in ("values", "iter", "values_mut", "iter_mut"):
+            continue
+        for o in leaf_origins(prog, f, t["args"][0], at=b):
+            for p_ in o.proj:
+                if p_.startswith("f:") and p_.rsplit(".", 1)[-1] in regs:
+                    # the iterator built here must reach an is_dirty question: directly in f, or in the closure given to any/all/find
+                    out.add(p_.rsplit(".", 1)[-1])
+    return out
+
+
+def _visits_every_map(ctx, prog, ap, cb_sites, site_flds, tag=""):
     from .util import enum_switches
     sw = enum_switches(prog, ap)
     n = 0
@@ -282,15 +348,21 @@ def _visits_every_map(ctx, prog, ap, cb_sites, site_flds):
             continue        # not in a loop (a single map): nothing to skip
         heads = [(hb, ht) for hb, ht in ap.calls() if hb in cyc and (ht.get("callee") or "").endswith("Iterator::next")]
         exits = [s_ for s_ in sw if s_["block"] in cyc and s_["src"] and all(o.kind == "call" and o.block in {hb for hb, _ in heads} for o in s_["src"])]
-        inst = "+".join(sorted(site_flds.get(b) or ())) or "loop"
+        inst = tag + ("+".join(sorted(site_flds.get(b) or ())) or "loop")
         if not ctx.check(len(heads) == 1 and len(exits) == 1, "db-sync-visits-every-map", inst + ":shape",
                          "cannot find the single iterator step / end-of-iteration test of the loop that syncs the maps of one registry", where=where(ap, b)):
             continue
         n += 1
         hb = heads[0][0]
         ex = exits[0]
-        # a round that comes back to the iterator step has invoked the callback
-        ctx.check(hb not in ap.reachable_ok(ap.normal_succs(hb), avoid={b}), "db-sync-visits-every-map", inst + ":every-round",
+        # a round that comes back to the iterator step has invoked the callback - or has found the map clean (the
+        # not-dirty edge of an `is_dirty()` test), for which the per-map sync does nothing anyway
+        clean_edges = set()
+        if _clean_sync_is_noop(prog):
+            for s_ in bool_switches(prog, ap):
+                if s_["block"] in cyc and s_["cond"] and all(o.kind == "call" and (o.data.get("callee") or "").endswith("::is_dirty") for o in s_["cond"]):
+                    clean_edges.add(s_["false"])
+        ctx.check(hb not in ap.reachable_ok(ap.normal_succs(hb), avoid={b} | clean_edges), "db-sync-visits-every-map", inst + ":every-round",
                   "a map can be skipped: the loop can go round without invoking the sync callback", where=where(ap, hb))
         # the only successful way out of the loop is the iterator's None
         none_tgts = {tgt for v, tgt in ex["targets"].items() if v == 0} | ({ex["otherwise"]} if 0 not in ex["targets"] and ex["otherwise"] is not None else set())
